@@ -1,0 +1,50 @@
+//go:build verif
+
+package config
+
+// This file is only compiled with the "verif" build tag. It gives an external
+// verification harness control over the schedule at named yield points and
+// access to the pieces of persistence that are normally wired up by the
+// module's start function.
+
+// VerifHook is called at every yield point with the name of the point. It must
+// be set before any other goroutine uses the package and not changed afterwards.
+var VerifHook func(name string)
+
+func verifPoint(name string) {
+	if h := VerifHook; h != nil {
+		h(name)
+	}
+}
+
+// VerifSetConfigFile sets the file used by SaveConfig and VerifLoadConfig.
+// An empty path disables persistence. Must not be called concurrently with
+// other functions of this package.
+func VerifSetConfigFile(path string) {
+	optionsLock.Lock()
+	defer optionsLock.Unlock()
+	configFilePath = path
+}
+
+// VerifLoadConfig loads the config file exactly like the module start does.
+func VerifLoadConfig() error {
+	return loadConfig(false)
+}
+
+// VerifResetRegistry removes all registered options except the built-in
+// release level and expertise level options. Values of the remaining options
+// are not touched (use the exported setters for that).
+func VerifResetRegistry() {
+	optionsLock.Lock()
+	defer optionsLock.Unlock()
+	for key := range options {
+		if key != releaseLevelKey && key != expertiseLevelKey {
+			delete(options, key)
+		}
+	}
+}
+
+// VerifReleaseLevel returns the release level gate as used by the getters.
+func VerifReleaseLevel() ReleaseLevel {
+	return getReleaseLevel()
+}
